@@ -16,8 +16,15 @@ import (
 	"verif/sim/simrt"
 )
 
+// scratchDirs are removed on every exit path, also by die().
+var scratchDirs []string
+
 func die(code int, f string, a ...interface{}) {
 	fmt.Fprintf(os.Stderr, "vcheck: "+f+"\n", a...)
+	cleanupTmp()
+	for _, d := range scratchDirs {
+		os.RemoveAll(d)
+	}
 	os.Exit(code)
 }
 
